@@ -58,6 +58,8 @@ def gen(rng, tier):
         # server (its own namespace), loses its transport while the first
         # one is busy reconnecting: it must reconnect all the same
         'bystander': rng.random() < 0.25,
+        # the application's disconnect handler sends a last message
+        'disc_handler_emits': rng.random() < 0.3,
     }
     pattern = [rng.choice(['refuse', 'refuse', 'ns_refuse', 'accept'])
                for _ in range(rng.randrange(0, 8))] + ['accept']
@@ -190,13 +192,19 @@ def _run(case, cfg, w):
             return [('pause', 0.05), ('ret', None)]
         if label[3] == 'connect' and cur_outcome[0] == 'losing':
             return [('pause', 0.05), ('ret', None)]
+        if label[3] == 'disconnect' and cfg.get('disc_handler_emits'):
+            return [('do', lambda: c.emit('bye', 'x', namespace=label[2])),
+                    ('ret', None)]
         return [('ret', None)]
     slow_handlers = 'lost_in_handler' in case['pattern']
     for ns in cfg['nss']:
         for evn in ('connect', 'disconnect', 'connect_error'):
             c.on(evn, w.make_handler(('c', 'func', ns, evn), cplan,
-                                     coroutine=slow_handlers and
-                                     w.mode == 'async' and evn == 'connect'),
+                                     coroutine=w.mode == 'async' and (
+                                         (slow_handlers and evn == 'connect')
+                                         or (evn == 'disconnect' and bool(
+                                             cfg.get('disc_handler_emits')))
+                                     )),
                  namespace=ns)
     auth_calls = []
     if cfg['auth'] == 'callable':
